@@ -42,6 +42,16 @@ CHECKS["C08"] = ("fault_enumeration",
    "Each request position is answered with k consecutive errors of each type; the CA log must show min(k+1,10) consecutive, identical, validly signed transmissions chained by the newest nonce for recoverable types and exactly one for anything else; polling bounded by 20.",
    "Waits are 0 s under the cargo feature (counts and classification are the shipped ones). GET positions: only 'error never taken for success'.",
    "DESIGN.md 4 C08")
+CHECKS["C04"] = ("exploration",
+   "property-based testing (proptest): generated message flows of the real daemon judged by a strict mock CA (independent JWS verifier, nonce ledger, jwk/kid discipline, inner key-change and EAB JWS); bulk JWS batches from the daemon's builders (in-crate probe) verified by the harness",
+   "Every POST of generated flows (7 key types, roll-overs between any two types, contact updates, EAB, spurious badNonce retries, CAs with/without nonces on GET) is checked by the CA-side oracle; tens of thousands of JWS with fresh keys reach the short-component encodings by volume (counted).",
+   "Nonce freshness judged on fault-free and badNonce-only histories. Trusts OpenSSL/ring verification primitives.",
+   "DESIGN.md 4 C04")
+CHECKS["C05"] = ("exploration",
+   "property-based testing (proptest): generated identifier sets / CA behaviours through the real daemon, hook recorder trace compared with values recomputed from the JWK on record (RFC 8555 s.8, RFC 8737) and with the CA's request timing; bulk differential of the proof functions via the in-crate probe",
+   "For every authorization the hooks that ran, their variables and the moment of the challenge POST are compared with an independent prediction; names together with their wildcard, mixed challenge types, IPs, subsets of offered types and non-pending authorizations are generated on purpose and counted.",
+   "The CA offers dns-01 only for wildcard authorizations (as real CAs do).",
+   "DESIGN.md 4 C05")
 PENDING = {}
 
 props = [json.loads(l) for l in open("/verif/properties.jsonl")]
